@@ -4,7 +4,7 @@ Decides the structural clauses listed in DESIGN.md section 4 (C14); the
 simplifier's value-level correctness and permission-query enumeration are
 declined.
 """
-from lib import tt, flow
+from lib import tt, flow, shape
 from lib.rulelib import AtomOracle, arg_syms, get_fn, res_calls, short, syms, walk
 from lib.facts import callee
 from rules import partial_tables as pt
@@ -252,6 +252,70 @@ def views(chk, facts):
             chk.ob(rule, short(name), ok, "derives its policies through %s: %s" % (must, ok), where=g.where(), fn=name)
 
 
+def same_residuals(chk, facts):
+    """All views of a response present the same residuals: policies() is the whole `residuals` map, policy_set() adds every one
+    of them unconditionally, and reauthorize evaluates exactly that policy set (not a selection of buckets)."""
+    rule = "C14.VIEWS"
+    from lib.slice import leaf_producers
+    from lib import protocol, cfg
+    pol = get_fn(chk, facts, rule, RESP + "::policies")
+    if pol is not None:
+        reads = any(isinstance(e, list) and e[0] == "f" and e[2] == "residuals" for _, s_ in pol.stmts() if s_[0] == "a" for p_ in shape._rv_places(s_[2]) for e in p_[1:])
+        vals = any(callee(t).endswith("::values") for _, t in pol.calls())
+        filt = [callee(t) for _, t in pol.calls() if callee(t).split("::")[-1] in ("filter", "filter_map", "take", "skip", "take_while", "skip_while", "step_by")]
+        chk.ob(rule, "policies", reads and vals and not filt, "policies() iterates all values of `residuals`: field read %s, values() %s, filtering adaptors %s" % (reads, vals, filt),
+               where=pol.where(), fn=pol.name)
+    ps = get_fn(chk, facts, rule, RESP + "::policy_set")
+    if ps is not None:
+        adds = [(b, t) for b, t in ps.calls() if callee(t).endswith("PolicySet::add")]
+        ok = bool(adds)
+        det = "no PolicySet::add"
+        for b, t in adds:
+            lp = protocol.loop_of(ps, b)
+            if lp is None:
+                ok = False
+                det = "add is not in a loop over the policies"
+                continue
+            head, some = lp
+            skip = head in cfg.reachable(ps, some, cut_blocks={b})
+            hb = ps.blocks[head]["t"]
+            src = leaf_producers(ps, hb[2][0], extra_transparent=("::into_iter", "::iter")) if hb[0] == "call" and hb[2] else set()
+            from_all = any(x.endswith("::policies") for x in src)
+            ok &= (not skip) and from_all
+            det = "every iteration over policies() adds to the set: %s; the loop iterates policies(): %s" % (not skip, from_all)
+        chk.ob(rule, "policy_set", ok, det, where=ps.where(), fn=ps.name)
+    for name, inner, what in ((RESP + "::reauthorize", "authorizer::Authorizer::is_authorized", "core reauthorize"),):
+        f = get_fn(chk, facts, rule, name)
+        if f is None:
+            continue
+        sites = [(b, t) for b, t in f.calls() if callee(t).endswith(inner)]
+        if not sites:
+            chk.ob(rule, "reauthorize", False, "reauthorize does not call %s" % inner, where=f.where(), fn=f.name)
+            continue
+        for b, t in sites:
+            src = set()
+            for o in t[2][1:]:
+                lp_ = leaf_producers(f, o)
+                if any("PolicySet" in f.locals[o[1][0]] for _ in [0] if o[0] in ("c", "m")):
+                    src |= lp_
+            ok = any(x.endswith(RESP.split("::")[-1] + "::policy_set") or x.endswith("::policy_set") for x in src) and not any(x.endswith("PolicySet::new") for x in src)
+            chk.ob(rule, "reauthorize", ok, "the policy set evaluated by reauthorize is produced by %s%s" % (sorted(short(x) for x in src), "" if ok else " — not the response's own policy_set(): a selection of residuals is re-evaluated"),
+                   where=f.where(t[1].get("l")), fn=f.name, key="%s:reauthorize" % rule, sample={"producers": sorted(src)})
+    # the public wrapper delegates
+    for name, inner in (("cedar_policy::api::tpe::TpeResponse::reauthorize", "tpe::response::Response::reauthorize"),
+                        ("cedar_policy::api::tpe::TpeResponse::policy_set", "tpe::response::Response::policy_set"),
+                        ("cedar_policy::api::tpe::TpeResponse::get_policy", "tpe::response::Response::get_residual_policy")):
+        g = facts.fn(name)
+        if g is None:
+            chk.lost(rule, name)
+            continue
+        cs = [callee(t) for _, t in g.calls()]
+        for cl in facts.closures_of(name):
+            cs += [callee(t) for _, t in cl.calls()]
+        ok = any(inner in c for c in cs)
+        chk.ob(rule, short(name), ok, "%s delegates to %s: %s" % (short(name), inner, ok), where=g.where(), fn=name)
+
+
 def run(chk, facts, tier):
     facts.load_crate("cedar_policy_core.lib")
     facts.load_crate("cedar_policy.lib")
@@ -261,10 +325,14 @@ def run(chk, facts, tier):
         "(TABLE.decision) the 16-row table over bucket non-emptiness is sound w.r.t. all completions of residuals (a reported decision is the only "
         "possible one; a decision is owed when nothing is residual); (TABLE.reason) reason() reads true_permits for Allow, true_forbids for Deny; "
         "(FIELD-USE) every reader of ResidualPolicy.policy only projects effect/id/annotations, so all views present the residual, and the "
-        "shared conversion takes its condition from `residual`. Does not decide the TPE simplifier's value-level correctness nor query enumeration.")
+        "shared conversion takes its condition from `residual`; (VIEWS) policies() is the whole residual map, policy_set() adds every one of them, reauthorize evaluates exactly policy_set(); "
+        "(CANERR) can_error_assuming_well_formed answers `cannot error` for a node only after asking every residual child (the licence for dropping sub-residuals). Does not decide the TPE simplifier's value-level correctness nor query enumeration.")
     chk.assumptions = ["MIR at mir-opt-level=0 reflects source control flow",
                        "Residual::is_true/is_false/is_error classify residuals correctly",
                        "std collections behave as documented"]
     response_new(chk, facts)
     reason_table(chk, facts)
     views(chk, facts)
+    same_residuals(chk, facts)
+    from rules import c14_canerr
+    c14_canerr.check(chk, facts)
